@@ -216,6 +216,16 @@ class QvmEval(EvaluationContext):
             raise EvalError('No stack frame')
         routine = self.find_routine_func(frame.code_start)
 
+        if var in routine.static_vars:
+            # STATIC variables live in the global segment under a name
+            # qualified by their routine
+            full_name = routine.get_variable(var).full_name
+            try:
+                return (self.cpu.globals_segment,
+                        get_global_var_idx(self, full_name))
+            except KeyError:
+                raise EvalError('Unknown variable')
+
         try:
             var_idx = get_local_var_idx(routine, var)
         except KeyError:
